@@ -71,7 +71,7 @@ pub fn cfg_for(prop: &'static str) -> FsxCfg {
         "C08" => FsxCfg {
             profile: Profile {
                 open_volume: 6, close_volume: 6, open_root: 8, open_dir: 8, change_dir: 3, close_dir: 8, open: 14, close: 10,
-                stale: 9, reenter: 6, has_open: 6, write: 3, read: 2, mkdir: 2, delete: 2, label: 2, flush: 1, seek: 1, query: 1,
+                stale: 9, reenter: 6, has_open: 6, long_history: 2, write: 3, read: 2, mkdir: 2, delete: 2, label: 2, flush: 1, seek: 1, query: 1,
                 check_all: 1, remount: 1, find: 1, list: 1, invalid_names: 0, modes: [3, 2, 1, 2, 1, 3], weird_seeks: false,
             },
             steps: (1, 60),
